@@ -132,6 +132,7 @@ class Outcome:
         "steps",
         "trace",
         "config",
+        "extra",
     )
 
     def __init__(self) -> None:
@@ -145,6 +146,7 @@ class Outcome:
         self.steps = 0
         self.trace: list[str] = []
         self.config = ""  # which configuration bucket (e.g. fault-free / faults)
+        self.extra: dict = {}  # e.g. {"narrow": ...}: the failing schedule of a sweep case
 
     def violate(self, cls: str, msg: str) -> None:
         self.violations.append((cls, msg))
@@ -178,6 +180,11 @@ class Scenario:
 
     def execute(self, case: dict) -> Outcome:
         raise NotImplementedError
+
+    def narrow(self, case: dict, hint: t.Any) -> dict:
+        """Turn a sweep case into the explicit failing schedule (``hint`` comes
+        from ``Outcome.extra['narrow']``) before minimisation."""
+        return case
 
     def render(self, case: dict) -> list[str]:
         """Human-readable rendering of the schedule and fault trace (for the
